@@ -237,6 +237,23 @@ package decor
 //@ func chooseSpeedProducer
 //@   props    C07 C02 C20
 //@   ensures  result != nil
+
+// the speed producers hand fmt exactly the rate they are given: rounded to a whole number of
+// bytes for the size units, as it is for a plain number
+//@ func chooseSpeedProducer$1
+//@   props    C20 C02
+//@   assumes  domain: 0 <= speed && speed <= 9000000000000000000 // rates below 2^63 bytes per second
+//@   ensures  handed: called("fmt.Sprintf") == old(called("fmt.Sprintf")) + 1 && calledWith("fmt.Sprintf", 0) == format && result == returned("fmt.Sprintf", 0)
+//@              && calledWith("fmt.Sprintf", 1)[0] == returned("FmtAsSpeed", 0) && unboxAs(calledWith("FmtAsSpeed", 0), "SizeB1024") == round(speed)
+//@ func chooseSpeedProducer$2
+//@   props    C20 C02
+//@   assumes  domain: 0 <= speed && speed <= 9000000000000000000 // rates below 2^63 bytes per second
+//@   ensures  handed: called("fmt.Sprintf") == old(called("fmt.Sprintf")) + 1 && calledWith("fmt.Sprintf", 0) == format && result == returned("fmt.Sprintf", 0)
+//@              && calledWith("fmt.Sprintf", 1)[0] == returned("FmtAsSpeed", 0) && unboxAs(calledWith("FmtAsSpeed", 0), "SizeB1000") == round(speed)
+//@ func chooseSpeedProducer$3
+//@   props    C20 C02
+//@   ensures  handed: called("fmt.Sprintf") == old(called("fmt.Sprintf")) + 1 && calledWith("fmt.Sprintf", 0) == format && result == returned("fmt.Sprintf", 0)
+//@              && hasType(calledWith("fmt.Sprintf", 1)[0], "float64") && unboxAs(calledWith("fmt.Sprintf", 1)[0], "float64") == speed
 //@ func NewMedian
 //@   props    C07 C02
 //@   ensures  result != nil
@@ -341,7 +358,7 @@ package decor
 // frozen once the bar has finished
 
 //@ func NewElapsed$1
-//@   props    C20
+//@   props    C20 C03
 //@   requires producer != nil
 //@   ensures  frozen: s.Completed || s.Aborted ==> result == old(msg) && msg == old(msg)
 //@   ensures  live: !(s.Completed || s.Aborted) ==> result == msg && called("NewElapsed$1.producer") == old(called("NewElapsed$1.producer")) + 1
@@ -431,6 +448,9 @@ package decor
 //@   props    C02 C07
 //@   requires fn != nil
 
+//@ func Spinner
+//@   props    C02 C07
+//@   ensures  result != nil
 //@ func Spinner$1
 //@   props    C02 C07
 //@   wraps    uint
